@@ -35,7 +35,20 @@ def resolve_all(F):
     w = H.store_worker(F)
     if w is not None:
         storelib.WORKER = w.npath
+    from lib import all_closures
     for name, t in trackerlib.TRACKERS.items():
+        t['result'] = None
+        if not t['batch']:
+            # the result stage (one record per candidate) is the loop of predict() or — when written as
+            # `candidates.iter_mut().map(|c| ..record..).collect()` — the closure that holds the per-candidate decision
+            pb = F.one(t['predict'])
+            if pb is not None and not pb.find_calls('track::store::TrackStore::add_track',
+                                                    'track::store::TrackStore::merge_external'):
+                for cb in all_closures(F, pb):
+                    if cb.find_calls('track::store::TrackStore::add_track') and cb.find_calls(
+                            'track::store::TrackStore::merge_external'):
+                        t['result'] = cb.npath
+                        break
         if t['batch']:
             mod = t['predict'].rsplit('::', 2)[0] + '::'
             vt = H.voting_thread(F, mod)
